@@ -185,3 +185,66 @@ def link_destination_roundtrip(viol, maxlen=4):
                 and not any(c in d for c in " <>"):
             viol.append({"clause": "link_destination_plain_when_possible", "input": {"dest": d}, "got": r, "want": d})
     return n
+
+
+def coalesce_spec_sweep(viol, maxlen=5):
+    """coalesce_raw_text_nodes on every paragraph whose children are a sequence of <= maxlen nodes from {RawText, soft break,
+    hard break, code span, emphasis(RawText)}: the result is the reference 'each maximal run RawText (soft-break RawText)*
+    becomes its first node holding the texts joined by newline; every other node is kept, in order, untouched (same
+    objects)', and nothing but the text of those first nodes is written"""
+    import marko.block as B
+    import marko.inline as I
+    from flowmark.transforms.doc_transforms import coalesce_raw_text_nodes
+
+    def mk(kind, k):
+        if kind == "t":
+            e = I.RawText.__new__(I.RawText)
+            e.children = "w%d" % k
+            e.escape = True
+        elif kind in ("s", "h"):
+            e = I.LineBreak.__new__(I.LineBreak)
+            e.soft = kind == "s"
+        elif kind == "c":
+            e = I.CodeSpan.__new__(I.CodeSpan)
+            e.children = "c%d" % k
+        else:
+            e = I.Emphasis.__new__(I.Emphasis)
+            inner = I.RawText.__new__(I.RawText)
+            inner.children = "e%d" % k
+            inner.escape = True
+            e.children = [inner]
+        return e
+    n = 0
+    for ln in range(0, maxlen + 1):
+        for kinds in itertools.product("tshce", repeat=ln):
+            nodes = [mk(kd, k) for k, kd in enumerate(kinds)]
+            before = [(x, getattr(x, "children", None) if not isinstance(getattr(x, "children", None), list) else None) for x in nodes]
+            para = B.Paragraph.__new__(B.Paragraph)
+            para.children = list(nodes)
+            doc = B.Document.__new__(B.Document)
+            doc.children = [para]
+            doc.link_ref_defs = {}
+            # reference
+            want, i = [], 0
+            while i < len(nodes):
+                if kinds[i] == "t":
+                    text, j = before[i][1], i + 1
+                    while j + 1 < len(nodes) and kinds[j] == "s" and kinds[j + 1] == "t":
+                        text += "\n" + before[j + 1][1]
+                        j += 2
+                    want.append((nodes[i], text))
+                    i = j
+                else:
+                    want.append((nodes[i], before[i][1]))
+                    i += 1
+            coalesce_raw_text_nodes(doc)
+            n += 1
+            got = [(x, getattr(x, "children", None) if not isinstance(getattr(x, "children", None), list) else None) for x in para.children]
+            ok = len(got) == len(want) and all(a[0] is b[0] and a[1] == b[1] for a, b in zip(got, want))
+            inner_ok = all(x.children[0].children == "e%d" % k for k, x in enumerate(nodes) if kinds[k] == "e")
+            if not ok or not inner_ok:
+                viol.append({"clause": "coalesce_as_specified", "input": {"children": "".join(kinds)},
+                             "got": [(type(a[0]).__name__, a[1]) for a in got], "want": [(type(a[0]).__name__, a[1]) for a in want]})
+                if len(viol) > 10:
+                    return n
+    return n
